@@ -23,6 +23,7 @@ type scriptOpts struct {
 	enterProbe  bool // every node starts with <<call enter("title")>>
 	noCommands  bool
 	firstLine   bool                                // every node starts with a line: no cycle of jumps can run without yielding
+	router      bool                                // in a third of the scripts the first node dispatches through <<jump {$dest}>> and the others come back to it
 	endWithJump int                                 // n > 0: a node body ends with a jump in n of n+1 cases
 	random      bool                                // use dice/random/random_range in lines, sets and conditions
 	extraStmt   func(g *scriptGen, depth int) *Stmt // property-specific statements
@@ -138,7 +139,7 @@ func (g *scriptGen) jumpTarget() string {
 
 func (g *scriptGen) setStmt() *Stmt {
 	t := g.t
-	switch rapid.IntRange(0, 7).Draw(t, "set") {
+	switch rapid.IntRange(0, 9).Draw(t, "set") {
 	case 0:
 		v := rapid.SampledFrom([]string{"f1", "f2"}).Draw(t, "v")
 		return &Stmt{K: "set", Var: v, Op: "=", E: not(varRef(v))}
@@ -249,7 +250,7 @@ func (g *scriptGen) stmt(depth int) *Stmt {
 			}
 			return &Stmt{K: "jumpx", E: str(tgt)}
 		}
-		if rapid.Bool().Draw(t, "viaVar") {
+		if rapid.IntRange(0, 2).Draw(t, "viaVar") != 0 {
 			return &Stmt{K: "jumpx", E: varRef("dest")}
 		}
 		return &Stmt{K: "jumpx", E: bin("+", str(""), str(g.jumpTarget()))}
@@ -319,6 +320,16 @@ func genScript(t *rapid.T, o scriptOpts) *Script {
 			}
 		}
 		nodes = append(nodes, node)
+	}
+	if o.router && !o.forwardOnly && n >= 2 && rapid.IntRange(0, 2).Draw(t, "router") == 0 {
+		// the same jump-by-expression statement is executed again and again with another destination each time
+		nodes[0].Body = append([]*Stmt{{K: "line", Text: g.lineText()}}, nodes[0].Body...)
+		nodes[0].Body = append(nodes[0].Body, &Stmt{K: "jumpx", E: varRef("dest")})
+		for i := 1; i < n; i++ {
+			next := g.titles[1+rapid.IntRange(0, n-2).Draw(t, "nextdest")]
+			nodes[i].Body = append([]*Stmt{{K: "line", Text: g.lineText()}}, nodes[i].Body...)
+			nodes[i].Body = append(nodes[i].Body, &Stmt{K: "set", Var: "dest", Op: "=", E: str(next)}, &Stmt{K: "jump", Target: g.titles[0]})
+		}
 	}
 	// distribute over 1-3 readers
 	sc := &Script{}
